@@ -8,6 +8,7 @@ from typing import Dict, List, Optional, Set, Tuple
 from .core import AnalysisError, Loc, Report, norm
 from .inifront import IniConfig, Obj
 from .config_graph import ConfigGraph
+from .guards import atoms, path_conditions
 from .normalize import canon
 from .pyfront import ClassInfo, Program, body_without_docstring, param_names, self_attr
 
@@ -316,26 +317,87 @@ def check_landing_table(prog: Program, rep: Report) -> None:
     if fn is None or out is None:
         raise AnalysisError("CellBoundaryEventHandler methods not found")
     file = h.file
+    fn = canon(prog, h, fn, helpers=False)
+    out = canon(prog, h, out, helpers=False)
+    # abstract execution of the loop body for a positive and for a negative velocity component: which neighbour cell is asked
+    # for (the flag passed to neighbor_cell) and which of its faces becomes the boundary
+    loops = [l for l in ast.walk(fn) if isinstance(l, ast.For) and isinstance(l.iter, ast.Call) and norm(l.iter.func) == "enumerate"
+             and isinstance(l.target, ast.Tuple) and len(l.target.elts) == 2]
     rows = []
-    for n in ast.walk(fn):
-        if isinstance(n, ast.If) and isinstance(n.test, ast.Compare) and isinstance(n.test.comparators[0], ast.Constant) \
-                and n.test.comparators[0].value == 0 and isinstance(n.test.ops[0], (ast.Gt, ast.Lt)):
-            for branch, positive in ((n.body, isinstance(n.test.ops[0], ast.Gt)), (n.orelse, not isinstance(n.test.ops[0], ast.Gt))):
-                for st in branch:
+    if len(loops) == 1:
+        dvar, vvar = norm(loops[0].target.elts[0]), norm(loops[0].target.elts[1])
+
+        def run(positive: bool):
+            env: Dict[str, Tuple[str, object]] = {}
+            found: List[Tuple[str, object, str, str, ast.AST]] = []
+
+            def truth(e: ast.AST) -> Optional[bool]:
+                if isinstance(e, ast.Constant) and isinstance(e.value, bool):
+                    return e.value
+                if isinstance(e, ast.Name) and env.get(e.id, ("", None))[0] == "bool":
+                    return env[e.id][1]  # type: ignore
+                if isinstance(e, ast.UnaryOp) and isinstance(e.op, ast.Not):
+                    v = truth(e.operand)
+                    return None if v is None else not v
+                if isinstance(e, ast.Compare) and len(e.ops) == 1:
+                    l, r, op = e.left, e.comparators[0], e.ops[0]
+                    zero = lambda x: isinstance(x, ast.Constant) and x.value == 0 and not isinstance(x.value, bool)  # noqa: E731
+                    if norm(l) == vvar and zero(r):
+                        return {ast.Gt: positive, ast.GtE: positive, ast.Lt: not positive, ast.LtE: not positive, ast.Eq: False,
+                                ast.NotEq: True}.get(type(op))
+                    if norm(r) == vvar and zero(l):
+                        return {ast.Lt: positive, ast.LtE: positive, ast.Gt: not positive, ast.GtE: not positive, ast.Eq: False,
+                                ast.NotEq: True}.get(type(op))
+                return None
+
+            def ncell(e: ast.AST):
+                """(flag, direction argument) if e denotes the result of a neighbor_cell call"""
+                if isinstance(e, ast.Call) and "neighbor_cell" in norm(e.func) and len(e.args) >= 3:
+                    return truth(e.args[2]), norm(e.args[1])
+                if isinstance(e, ast.Name) and env.get(e.id, ("", None))[0] == "ncell":
+                    return env[e.id][1]
+                return None
+
+            def block(stmts: List[ast.stmt]) -> bool:
+                """False when the iteration ends (continue / break)"""
+                for st in stmts:
+                    if isinstance(st, ast.If):
+                        v = truth(st.test)
+                        if v is None:
+                            # not a sign test: both sides are possible, follow both in order
+                            if not block(st.body) or not block(st.orelse):
+                                return False
+                            continue
+                        if not block(st.body if v else st.orelse):
+                            return False
+                        continue
+                    if isinstance(st, (ast.Continue, ast.Break, ast.Return)):
+                        return False
+                    if isinstance(st, ast.Assign) and len(st.targets) == 1 and isinstance(st.targets[0], ast.Name):
+                        t = truth(st.value) if isinstance(st.value, (ast.Compare, ast.UnaryOp, ast.Constant)) else None
+                        if t is not None:
+                            env[st.targets[0].id] = ("bool", t)
+                        nc = ncell(st.value)
+                        if nc is not None:
+                            env[st.targets[0].id] = ("ncell", nc)
                     for a in ast.walk(st):
-                        if isinstance(a, ast.Assign) and isinstance(a.value, ast.Subscript) and isinstance(a.value.value, ast.Attribute) \
-                                and a.value.value.attr in ("cell_min", "cell_max") and isinstance(a.value.value.value, ast.Call) \
-                                and "neighbor_cell" in norm(a.value.value.value.func):
-                            call = a.value.value.value
-                            rows.append((positive, a.value.value.attr, norm(call.args[2]) if len(call.args) > 2 else "?",
-                                         norm(call.args[1]) if len(call.args) > 1 else "?", norm(a.value.slice), a))
+                        if isinstance(a, ast.Subscript) and isinstance(a.value, ast.Attribute) and a.value.attr in ("cell_min", "cell_max"):
+                            nc = ncell(a.value.value)
+                            if nc is not None:
+                                found.append((a.value.attr, nc[0], nc[1], norm(a.slice), st))
+                return True
+            block(loops[0].body)
+            return found
+        for positive in (True, False):
+            for attr, flag, dirarg, idx, st in run(positive):
+                rows.append((positive, attr, str(flag), dirarg, idx, st))
     want = {(True, "cell_min", "True"), (False, "cell_max", "False")}
-    got = {(p, attr, arg) for p, attr, arg, _, _, _ in rows}
+    got = {(p_, attr, arg) for p_, attr, arg, _, _, _ in rows}
     rep.ob("R11.4-landing-table", got == want and len(rows) == 2, Loc(file, fn.lineno, f"{h.name}.send_event_time"),
            f"landing table {sorted(got)}",
            "moving in + direction must land on the minimum of the upper neighbour cell, moving in - direction on the maximum of the "
            "lower neighbour cell; otherwise the unit is placed in a cell it has not reached (or stays in the old one)")
-    for p, attr, arg, dirarg, idx, a in rows:
+    for p_, attr, arg, dirarg, idx, a in rows:
         rep.ob("R11.4-landing-direction", dirarg == idx, Loc(file, a.lineno, f"{h.name}.send_event_time"), a,
                "the neighbour cell and the boundary coordinate must be taken in the same direction")
     # the selected boundary and direction are stored together under the 'smaller time' guard
@@ -360,17 +422,41 @@ def check_landing_table(prog: Program, rep: Report) -> None:
 # ---------------------------------------------------------------------------------------------------------------------
 # R10.1 / R10.2 set algebra of the cell taggers and the veto / bounding domains
 # ---------------------------------------------------------------------------------------------------------------------
+def _strip_order(it: ast.AST) -> ast.AST:
+    # order-only wrappers do not change the domain
+    while isinstance(it, ast.Call) and isinstance(it.func, ast.Name) and it.func.id in ("sorted", "list", "tuple", "reversed") and it.args:
+        it = it.args[0]
+    return it
+
+
 def _comprehension_facts(fn: ast.FunctionDef) -> Dict[str, object]:
+    """
+    Generators of the in-states of a cell tagger, whether written as comprehension clauses or as explicit loops:
+    (loop variable, iterated domain, conditions) in nesting order.  Conditions of explicit loops are the path conditions of the
+    yield inside the loop body.
+    """
     facts: Dict[str, object] = {"active_from": None, "domains": [], "occupants": [], "surplus": False, "filters": []}
+    yields = [n for n in ast.walk(fn) if isinstance(n, (ast.Yield, ast.YieldFrom))]
     for n in ast.walk(fn):
         if isinstance(n, ast.For) and "yield_active_cells" in norm(n.iter):
             facts["active_from"] = norm(n.target)
+        elif isinstance(n, ast.For):
+            inner = [y for y in yields if any(x is y for x in ast.walk(n))]
+            conds: List[str] = []
+            if inner:
+                # conditions that belong to this loop level only (deeper loops report their own)
+                conds = [c for c in (path_conditions(n.body, inner[0]) or [])]
+                deeper = [l for l in ast.walk(n) if isinstance(l, ast.For) and l is not n and any(x is inner[0] for x in ast.walk(l))]
+                for l in deeper:
+                    for c in path_conditions(l.body, inner[0]) or []:
+                        if c in conds:
+                            conds.remove(c)
+            facts["domains"].append((norm(n.target), norm(_strip_order(n.iter)), [" and ".join(conds)] if conds else []))
         if isinstance(n, ast.comprehension):
-            it = n.iter
-            # order-only wrappers do not change the domain
-            while isinstance(it, ast.Call) and isinstance(it.func, ast.Name) and it.func.id in ("sorted", "list", "tuple", "reversed") and it.args:
-                it = it.args[0]
-            facts["domains"].append((norm(n.target), norm(it), [norm(i) for i in n.ifs]))
+            conds = []
+            for i in n.ifs:
+                conds.extend(atoms(i))
+            facts["domains"].append((norm(n.target), norm(_strip_order(n.iter)), [" and ".join(conds)] if conds else []))
         if isinstance(n, ast.Call) and norm(n.func).endswith("yield_surplus"):
             facts["surplus"] = True
     return facts
@@ -383,7 +469,7 @@ def check_tagger_algebra(prog: Program, rep: Report) -> None:
     t_v = prog.class_named("CellVetoTagger")
     t_c = prog.class_named("CellBoundaryTagger")
     m = "yield_identifiers_send_event_time"
-    fb, fe, fs, fv, fc = (t.methods.get(m) for t in (t_b, t_e, t_s, t_v, t_c))
+    fb, fe, fs, fv, fc = (None if t.methods.get(m) is None else canon(prog, t, t.methods[m], helpers=False) for t in (t_b, t_e, t_s, t_v, t_c))
     for t, f in ((t_b, fb), (t_e, fe), (t_s, fs), (t_v, fv), (t_c, fc)):
         if f is None:
             raise AnalysisError(f"{t.name}.{m} not found")
@@ -406,11 +492,14 @@ def check_tagger_algebra(prog: Program, rep: Report) -> None:
     ok_b = False
     if len(cell_gens) == 1:
         var, _, ifs = cell_gens[0]
-        joined = " and ".join(ifs)
-        ok_b = f"{var} not in self._internal_state.cells.nearby_cells({actb})" in joined
+        conds = [c for c in " and ".join(ifs).split(" and ") if c]
+        ok_b = f"{var} not in self._internal_state.cells.nearby_cells({actb})" in conds
+        # the occupants of that very cell are what is yielded
         occ_src = [d for d in fb_f["domains"] if d[1] == f"self._internal_state[{var}]"]
-        ok_b = ok_b and len(occ_src) == 1
-        extra = [c for c in joined.split(" and ") if c and "nearby_cells" not in c and c != f"self._internal_state[{var}]"]
+        yielded = [norm(x) for y in ast.walk(fb) if isinstance(y, (ast.Yield, ast.YieldFrom)) and y.value is not None for x in ast.walk(y.value)
+                   if isinstance(x, ast.Subscript)]
+        ok_b = ok_b and (len(occ_src) == 1 or f"self._internal_state[{var}]" in yielded)
+        extra = [c for c in conds if "nearby_cells" not in c and c != f"self._internal_state[{var}]"]
         ok_b = ok_b and not extra
     rep.ob("R10.1-bounding-is-complement", ok_b, Loc(t_b.file, fb.lineno, f"{t_b.name}.{m}"), f"domains {fb_f['domains']}",
            "the cell-bounding tagger must treat the occupants of exactly the cells that are not nearby cells of the active cell "
